@@ -75,8 +75,8 @@ class Run:
         text = job['template']
         for k, ch in children.items():
             text = text.replace('<?python __hole__(%d, __stream) ?>' % k,
-                                '<?python hole_in(%d, len(__stream)) ?>%s'
-                                '<?python hole_out(%d, len(__stream)) ?>' % (k, ch[1], k))
+                                '<?python hole_in(%d, __stream) ?>%s'
+                                '<?python hole_out(%d, __stream) ?>' % (k, ch[1], k))
         self.text = text
         cls = getattr(zt, job.get('cls', 'PageTemplate'))
         opts = dict(job.get('options', {}))
@@ -93,7 +93,16 @@ class Run:
         kw.update(prebound)
         self.initial = dict(kw)
         kw.update(hole_in=self._hole_in, hole_out=self._hole_out, boom=_boom, kbi=_kbi)
-        kw['__translate'] = self.template.translate
+        self.depth = 0
+        self.translations = []    # this schema's own calls (made outside every hole)
+        real_translate = self.template.translate
+
+        def recording_translate(*a, **k):
+            r = real_translate(*a, **k)
+            if self.depth == 0:
+                self.translations.append((a, k, r))
+            return r
+        kw['__translate'] = recording_translate
         kw['__decode'] = bytes.decode
         if handler_on == 'falsy':
             self.handler_calls_ = FalsyHandler()
@@ -134,10 +143,13 @@ class Run:
     def _hole_in(self, k, n):
         self.events.append(('hole', k))
         self.snapshots[('hole', k)] = self._snapshot(self.econtext)
-        self.hole_marks.setdefault(k, []).append([n, None])
+        # n is the stream in force at the hole (the main one, or a translation sub-stream)
+        self.hole_marks.setdefault(k, []).append([len(n), None, n])
+        self.depth += 1
 
     def _hole_out(self, k, n):
-        self.hole_marks[k][-1][1] = n
+        self.hole_marks[k][-1][1] = len(n)
+        self.depth -= 1
 
     # ---- concrete K3 primitives ------------------------------------------------
     def ns(self):
@@ -153,7 +165,6 @@ class Run:
         def out(k, occ=0):
             marks = self.hole_marks.get(k, [])
             if occ < len(marks) and marks[occ][1] is not None:
-                a, b = marks[occ]
                 return ''.join(self.stream_at_exit(k, occ))
             return '<no-output>'
 
@@ -219,7 +230,7 @@ class Run:
             return name in dict.keys(self.econtext)
 
         def scope_frame(*names):
-            skip = set(names) | set(self.helper_names)
+            skip = set(names) | set(self.helper_names) | {'error'}   # HoleC: see pyvc/k3.py hole()
             for ch in self.children.values():
                 skip |= set(ch[3])
             now = self._snapshot(self.econtext)
@@ -253,6 +264,24 @@ class Run:
         def translate_calls():
             return -1
 
+        def translate_arg(i, nm):
+            # only meaningful when no child failed half-way (the hole depth is then exact)
+            if any(m[1] is None for ms in self.hole_marks.values() for m in ms):
+                raise NotImplementedError
+            a, k, r = self.translations[i]
+            return a[0] if nm == 'msgid' else k.get(nm)
+
+        def translate_result(i):
+            if any(m[1] is None for ms in self.hole_marks.values() for m in ms):
+                raise NotImplementedError
+            return self.translations[i][2]
+
+        def normalize(s):
+            return re.sub(r'\s+', ' ', str(s)).strip()
+
+        def i18n0(nm):
+            return None
+
         def DEFAULT():
             return self.default_marker
 
@@ -277,13 +306,17 @@ class Run:
                    global_now=global_now, in_local=in_local, scope_frame=scope_frame,
                    handler_calls=handler_calls, handler_configured=handler_configured,
                    errorinfo_of=errorinfo_of, quote_calls=quote_calls,
-                   translate_calls=translate_calls, DEFAULT=DEFAULT, rlen=rlen, acc=acc,
+                   translate_calls=translate_calls, translate_arg=translate_arg,
+                   translate_result=translate_result, normalize=normalize, i18n0=i18n0,
+                   DEFAULT=DEFAULT, rlen=rlen, acc=acc,
                    UNBOUND=lambda: UNBOUND)
         return nsd
 
     def stream_at_exit(self, k, occ):
-        a, b = self.hole_marks[k][occ]
-        return self.stream_snapshot(a, b)
+        a, b, st = self.hole_marks[k][occ]
+        # the stream may have been truncated after the hole ran; what is still there is what
+        # the contract can talk about
+        return st[a:b]
 
     def stream_snapshot(self, a, b):
         # the stream may have been truncated after the hole ran; what is still there is what
@@ -337,7 +370,10 @@ def main():
     if job.get('children'):
         children = [tuple(c[:2]) + (c[2], tuple(c[3])) for c in job['children']]
     child_choices = list(itertools.product(children, repeat=len(holes)))
-    value_choices = list(itertools.product(vals, repeat=len(probes)))
+    kinds = job.get('probe_values') or {}
+    iterables = [UNBOUND, None, [10, 20, 30], [], [5]]
+    value_choices = list(itertools.product(*[iterables if kinds.get(str(n)) == 'iterable' else vals
+                                             for n in probes]))
     pre_choices = [{}] + [{n: 'outer-' + n} for n in own] + \
         ([{n: 'outer-' + n for n in own}] if len(own) > 1 else [])
     cases = list(itertools.product(child_choices, value_choices, (True, 'falsy', False), pre_choices))
